@@ -8,6 +8,10 @@ INTERNAL = [b"%Y", b"%m", b"%d", b"%e", b"%U", b"%u", b"%W", b"%w", b"%H", b"%M"
 DELEGATED = [b"%a", b"%A", b"%b", b"%B", b"%c", b"%C", b"%D", b"%F", b"%g", b"%G", b"%h", b"%I", b"%j", b"%k", b"%l", b"%n", b"%p",
              b"%r", b"%R", b"%t", b"%T", b"%V", b"%x", b"%X", b"%y", b"%Ec", b"%EC", b"%Ex", b"%EX", b"%Ey", b"%EY", b"%Od", b"%OH",
              b"%Om", b"%OS", b"%Oy", b"%P", b"%q", b"%Q", b"%5Y", b"%_d", b"%-m", b"%^a", b"%#Z", b"%010s"]
+# the same digit counts spelled differently (leading zeros, many digits) and counts that only look small when narrowed
+SPELLINGS = [b"%E0003S", b"%E00003S", b"%E00015f", b"%E01024f", b"%E01025f", b"%E000000006S", b"%E00000f", b"%E00S", b"%E0000000001024S",
+             b"%E0000000001025S", b"%E4294967297S", b"%E4294967302f", b"%E18446744073709551617S", b"%E18446744073709551622f", b"%E65539S",
+             b"%E0004Y", b"%E04Y", b"%E00000000000000000000000000000000000003f"]
 LIT = [b"", b" ", b"-", b":", b"T", b"abc", b"/", b".", b",", b"%%", b"%%%%", b"\xe9", b"E", b"*", b"Z", b"1", b"\t"]
 DANGLING = [b"%", b"%E", b"%E*", b"%:", b"%::", b"%:::", b"%E4", b"%E1", b"%E12345", b"%O", b"%E%", b"%:%z", b"%E" + b"9" * 1000 + b"S",
             b"%E" + b"9" * 30, b"%%%", b"%%%%%", b"%E*%Y", b"%:Y", b"%::Y", b"%EY", b"%Ef", b"%ES", b"%E*Y", b"%E4y", b"%E1025f"]
@@ -18,8 +22,8 @@ REPO = [b"%Y-%m-%d%ET%H:%M:%E*S%Ez", b"%Y-%m-%d%ET%H:%M:%S%Ez", b"%a, %d %b %E4Y
 
 def formats(seed, n):
     r = random.Random(seed)
-    out = list(REPO) + INTERNAL + DELEGATED + DANGLING
-    toks = INTERNAL + DELEGATED + LIT + DANGLING
+    out = list(REPO) + INTERNAL + DELEGATED + DANGLING + SPELLINGS + [b"x" + t + b"|%S" for t in SPELLINGS]
+    toks = INTERNAL + DELEGATED + LIT + DANGLING + SPELLINGS[:6]
     # all pairs of (internal|delegated|dangling) with a separator class: the cut points of the scanner
     for a, b in itertools.product(INTERNAL[:24] + DELEGATED[:12] + DANGLING[:12], repeat=2):
         if r.random() < (0.25 if n < 20000 else 1.0):
